@@ -4,7 +4,7 @@
 Require Extraction.
 Require Import ExtrOcamlBasic.
 From MC Require Import Model.Base Model.Generated Model.Store Model.Memc Model.Codec
-  Model.Handler Model.Conn Model.Run Model.Conc Model.Server Model.PolConc.
+  Model.Handler Model.Conn Model.Run Model.Conc Model.Server Model.PolConc Spec.Atomic Spec.AtomicM.
 From Coq Require Import NArith ZArith Strings.Byte.
 
 Extraction Language OCaml.
@@ -15,5 +15,6 @@ Extraction "model.ml"
   Server.new_server Server.sv_step Server.mem_nat Server.sv_active
   Conc.run_sched Conc.mprog_of Conc.new_thread Conc.th_done Conc.mop Conc.op Conc.opres Conc.shared
   PolConc.prun_sched PolConc.new_gthread PolConc.list_client PolConc.g_done PolConc.pop PolConc.pores PolConc.pshared
+  AtomicM.ni_sched
   Z.of_N Z.to_N Z.opp Base.two64 N.sub
   N.add N.mul N.div_eucl N.of_nat N.to_nat Byte.to_N Byte.of_N Base.blen.
